@@ -284,6 +284,10 @@ impl SemaphoreState {
                 // of the waiter list
                 unsafe { self.force_remove_waiter(wait_node) };
                 wait_node.state = PollState::Done;
+                // The removed waiter might have been the oldest one and have
+                // blocked a later waiter whose request fits into the available
+                // permits. That one must be woken now.
+                self.wakeup_waiters();
             }
             PollState::New | PollState::Done => {}
         }
